@@ -4,6 +4,7 @@ import (
 	"bytes"
 	"encoding/binary"
 	"fmt"
+	"strings"
 
 	"github.com/buildbarn/go-xdr/pkg/protocols/nfsv4"
 )
@@ -116,7 +117,7 @@ func (w *world) tOpen(inc *incM, name, owner string, acc uint32, how string) *tm
 		}
 	}
 	t.onDone = func(c *call, res []nfsv4.NfsResop4) {
-		if len(res) != 3 || resStatus(res[2]) != nfsv4.NFS4_OK {
+		if len(res) < 3 || resStatus(res[2]) != nfsv4.NFS4_OK {
 			return
 		}
 		ok := res[1].(*nfsv4.NfsResop4_OP_OPEN).Opopen.(*nfsv4.Open4res_NFS4_OK).Resok4
@@ -940,6 +941,67 @@ func (w *world) tDestroyClientIDInSeq(target *incM) *tmpl {
 		if len(res) == 1 && resStatus(res[0]) == nfsv4.NFS4_OK {
 			w.reclaim(target, "destroyed")
 			w.label("destroy_clientid_ok")
+		}
+	}
+	return t
+}
+
+// ---------------------------------------------------------------- current state ID
+
+var currentSID = nfsv4.Stateid4{Seqid: 1}
+
+// tOpenThen: OPEN followed, in the same COMPOUND, by an operation that
+// uses the "current state ID" special value (RFC 8881 section 16.2.3.1.2):
+// READ, WRITE or CLOSE.
+func (w *world) tOpenThen(inc *incM, name, owner string, acc uint32, then string) *tmpl {
+	t := w.tOpen(inc, name, owner, acc, "nocreate")
+	t.kind = "open_then_" + then
+	t.desc += "; " + strings.ToUpper(then) + "(current state ID)"
+	t.parkOK = nil
+	var last nfsv4.NfsArgop4
+	bit := accR
+	switch then {
+	case "read":
+		last = &nfsv4.NfsArgop4_OP_READ{Opread: nfsv4.Read4args{Stateid: currentSID, Offset: 0, Count: 2}}
+	case "write":
+		bit = accW
+		last = &nfsv4.NfsArgop4_OP_WRITE{Opwrite: nfsv4.Write4args{Stateid: currentSID, Offset: 0, Stable: nfsv4.FILE_SYNC4, Data: []byte{0x33}}}
+	case "close":
+		last = &nfsv4.NfsArgop4_OP_CLOSE{Opclose: nfsv4.Close4args{OpenStateid: currentSID}}
+	}
+	t.ops = append(t.ops, last)
+	openPredict, openDone := t.predict, t.onDone
+	t.predict = func(c *call) {
+		openPredict(c)
+		if t.expect[1][0] != nfsv4.NFS4_OK {
+			return
+		}
+		st := nfsv4.NFS4_OK
+		if then != "close" {
+			// The access of the open state after this OPEN.
+			access := acc
+			if leaf, _ := t.data["leaf"].(*countLeaf); leaf != nil {
+				if o := inc.opens[owner+"|"+string(leaf.handleCopy())]; o != nil {
+					access |= o.access
+				}
+			}
+			if access&bit == 0 {
+				st = nfsv4.NFS4ERR_OPENMODE
+			}
+		}
+		t.expect = append(t.expect, one(st))
+	}
+	t.onDone = func(c *call, res []nfsv4.NfsResop4) {
+		openDone(c, res)
+		if len(res) == 4 && then == "close" && resStatus(res[3]) == nfsv4.NFS4_OK {
+			fh := res[2].(*nfsv4.NfsResop4_OP_GETFH).Opgetfh.(*nfsv4.Getfh4res_NFS4_OK).Resok4.Object
+			if o := inc.opens[owner+"|"+string(fh)]; o != nil {
+				w.modelClose(o, "closed")
+				w.label("close_ok")
+			}
+		}
+		if len(res) == 4 {
+			w.label("current_stateid_used:" + then)
 		}
 	}
 	return t
